@@ -161,6 +161,44 @@ def switch(p, rng, log, where):
     log.append('%s:%s' % (where, a))
 
 
+def inplace_updates(p, specs_all, rng, log):
+    """the user's own metrics dictionary updated IN PLACE (a name rebound to another specification, a name added,
+    a name deleted) and the very same object assigned again; every get_cost(name) is observed with both
+    discrete_cost settings.  -> list of {'step', 'metric', 'spec', 'cont', 'disc'} / {'step', 'exc'}"""
+    all_names = list(specs_all)
+    pick = lambda: rng.choice(all_names)
+    out = []
+
+    def observe(step, d, binding):
+        try:
+            p.cost_specification = d
+            switch(p, rng, log, 'inplace-' + step)
+            for metric in sorted(binding):
+                rec = {'step': step, 'metric': metric, 'spec': binding[metric]}
+                for dflag in (False, True):
+                    p.discrete_cost = dflag
+                    rec['disc' if dflag else 'cont'] = float(p.get_cost(metric))
+                out.append(rec)
+        except Exception as ex:
+            out.append({'step': step, 'binding': dict(binding), 'exc': '%s: %s' % (type(ex).__name__, str(ex)[:200])})
+
+    binding = {'size': pick(), 'latency': pick()}
+    d = {m: specs_all[sn] for m, sn in binding.items()}
+    observe('assigned', d, binding)
+    # rebind both names (prefer a specification with another shared flag / other functions)
+    for m in ('size', 'latency'):
+        binding[m] = rng.choice([n for n in all_names if n != binding[m]])
+        d[m] = specs_all[binding[m]]
+    observe('rebound-same-object', d, binding)
+    binding['extra'] = pick()
+    d['extra'] = specs_all[binding['extra']]
+    observe('name-added-same-object', d, binding)
+    del binding['latency']
+    del d['latency']
+    observe('name-deleted-same-object', d, binding)
+    return out
+
+
 def respecify(p, specs_all, names, single, rng, log=None):
     """after the masks are set: re-assign the cost specification (the documented on-the-fly switch rebuilds the
     layer -> cost function map from the CURRENT layers) and re-observe every cost:
@@ -187,6 +225,7 @@ def respecify(p, specs_all, names, single, rng, log=None):
             for d in ('cont', 'disc'):
                 sw[d][n] = r[d][n]
     out['switched'] = sw
+    out['inplace'] = inplace_updates(p, specs_all, rng, log)
     p.cost_specification = orig
     switch(p, rng, log, 'respec-back')
     out['back'] = read_costs(p, names, single)
